@@ -175,7 +175,8 @@ func GenConfig(seed uint64, opt core.Options) *Config {
 		c.Knobs["MIN_PER_EPOCH_CHURN_LIMIT"] = uint64(rng.Range(1, 2))
 		c.Knobs["CHURN_LIMIT_QUOTIENT"] = 65536
 		c.Knobs["MAX_PER_EPOCH_ACTIVATION_CHURN_LIMIT"] = uint64(rng.Range(1, 2))
-		c.Knobs["SHARD_COMMITTEE_PERIOD"] = 0
+		// validators that join through deposits are too young to exit for a few epochs after activation
+		c.Knobs["SHARD_COMMITTEE_PERIOD"] = []uint64{0, 1, 2, 3}[rng.Intn(4)]
 		c.Knobs["EPOCHS_PER_ETH1_VOTING_PERIOD"] = 1
 		c.Knobs["MAX_DEPOSITS"] = 16
 		c.Knobs["MAX_VOLUNTARY_EXITS"] = 16
